@@ -172,10 +172,9 @@ func pureHandle(line string) string {
 	case "combine":
 		in := pkvl(f[2])
 		out := spc.VerifCombine(in, plist(f[1]))
-		ks := []string{}
-		for k := range out {
-			ks = append(ks, k)
-		}
+		// canonical form: one entry per port; a port absent from the result map carries nothing
+		// (FileCombinator/ParamCombinator.Run start no sender for it and close the port)
+		ks := append([]string{}, plist(f[1])...)
 		sort.Strings(ks)
 		res := []string{}
 		for _, k := range ks {
